@@ -25,6 +25,10 @@
 From Crusta Require Import Spec.AF Sat.Cnf Sat.Prog Model.Encoders Model.Graph Model.Solvers.
 From Crusta Require Import Proofs.EncSpec Proofs.SolverBasics Proofs.SolverThms.
 From Crusta Require Import Proofs.TopBase Proofs.TopMax Proofs.SolverTop.
+From Crusta Require Proofs.Clauses.
+From Crusta Require Proofs.SolverWholeEx Spec.SemFacts.
+From Coq Require Import Lia.
+Import ListNotations.
 
 Theorem C03_stable_component_partial : forall oracle thr, 1 <= thr -> valid_oracle oracle ->
   forall c n a, compact_af (c_af c) n -> a < n ->
@@ -48,5 +52,54 @@ Theorem C03_skeptical : forall oracle thr g F,
   end.
 Proof. exact SolverTop.top_skeptical. Qed.
 
+(* ---- the remaining sentences of the property text, one by one (Proofs/Clauses.v) ---- *)
+
+(* "YES exactly when every extension of the framework under that semantics contains the argument,
+   and NO otherwise": the one-argument form *)
+Theorem C03_skeptical_single : forall oracle thr g F,
+  valid_oracle oracle -> 1 <= thr -> view_good g F ->
+  forall s e a fuel cert st0 b c t, supported s QDS -> enc_ok s e -> al_ok s QDS F [a] ->
+  run_query oracle thr fuel s QDS cert e g [a] st0 = Done (OAcc b c) t ->
+  (b = true <-> forall S, ext s F S -> In a S).
+Proof. exact Clauses.ds_single. Qed.
+
+(* "when the framework has no stable extension every argument is skeptically accepted under ST" *)
+Theorem C03_skeptical_stable_none : forall oracle thr g F,
+  valid_oracle oracle -> 1 <= thr -> view_good g F ->
+  forall e al fuel cert st0 b c t, (forall S, ~ st F S) ->
+  run_query oracle thr fuel ST QDS cert e g al st0 = Done (OAcc b c) t ->
+  b = true.
+Proof. exact Clauses.ds_stable_none. Qed.
+
+(* "DS-CO coincides with membership in the grounded extension": DS-CO has no solver of its own
+   (supported excludes (CO, QDS)): the library answers it with the grounded solver.  The status of a
+   completed DS-GR run IS skeptical acceptance under CO, and is membership of a listed argument in
+   the grounded extension G *)
+Theorem C03_skeptical_complete_via_grounded : forall oracle thr g F,
+  valid_oracle oracle -> 1 <= thr -> view_good g F ->
+  forall e al fuel cert st0 b c t G, gr F G ->
+  run_query oracle thr fuel GR QDS cert e g al st0 = Done (OAcc b c) t ->
+  (b = true <-> skep CO F al) /\ (b = true <-> exists a, In a al /\ In a G).
+Proof. exact Clauses.ds_complete_via_grounded. Qed.
+
+(* the hypothesis "no stable extension" is satisfiable and the run completes: one self-attacking
+   argument, brute-force (valid) oracle *)
+Example C03_skeptical_stable_none_example :
+  let F := compact 1 [(0, 0)] in
+  view_good (view_of_af F) F /\ (forall S, ~ st F S) /\
+  exists t, run_query SolverWholeEx.bf_oracle 1 10 ST QDS false AuxCo (view_of_af F) [0]
+              (init_st CadicalLike) = Done (OAcc true None) t.
+Proof.
+  cbv zeta. split.
+  { apply (view_good_compact _ 1). split; [reflexivity|]. intros a b [E|[]]. injection E as <- <-. lia. }
+  split.
+  { intros S H. assert (E : all_exts ST (compact 1 [(0, 0)]) = []) by reflexivity.
+    destruct (SemFacts.all_exts_complete ST _ S H) as [T [HT _]]. rewrite E in HT. exact HT. }
+  eexists. vm_compute. reflexivity.
+Qed.
+
 Print Assumptions C03_stable_component_partial.
 Print Assumptions C03_skeptical.
+Print Assumptions C03_skeptical_single.
+Print Assumptions C03_skeptical_stable_none.
+Print Assumptions C03_skeptical_complete_via_grounded.
